@@ -189,6 +189,7 @@ type storeEnv struct {
 	compactBias       bool   // maintenance favours index compaction
 	emptyValuePct     int    // extra probability of empty values
 	starvePct         int    // probability that a committer is starved during its commit
+	digestOnlyBefore  uint64 // replica of a truncated primary: entries of older txs carry digests only (length 0)
 }
 
 func (e *storeEnv) valueOptional(id uint64) bool {
@@ -412,7 +413,8 @@ func (e *storeEnv) compareTx(what string, lt *ledTx, tx *store.Tx) {
 		if te.Metadata() != nil {
 			md = te.Metadata().Bytes()
 		}
-		if !bytes.Equal(te.Key(), le.Key) || !bytes.Equal(md, le.MD) || te.VLen() != len(le.Value) || te.HVal() != sha256.Sum256(le.Value) {
+		vlenOK := te.VLen() == len(le.Value) || (lt.ID < e.digestOnlyBefore && te.VLen() == 0)
+		if !bytes.Equal(te.Key(), le.Key) || !bytes.Equal(md, le.MD) || !vlenOK || te.HVal() != sha256.Sum256(le.Value) {
 			r.Violation("immutable-entries", "", "%s: entry %d of tx %d changed: key %q md %x vlen %d, acknowledged key %q md %x vlen %d", what, i, lt.ID, te.Key(), md, te.VLen(), le.Key, le.MD, len(le.Value))
 		}
 		if lt.ID < e.truncatedBefore {
